@@ -389,6 +389,24 @@ def equal_values_history(ctx):
     ctx.event('equal-values-and-mutable-hooks-history')
 
 
+def text_catalogue():
+    """complete: strings an endpoint may return that look like JSON or HTML from one end or both - every opening bracket x closing
+    bracket x inside x padding, and documents whose <html> tag sits at the start, late, in capitals or after a doctype"""
+    out = []
+    for op in '{[':
+        for cl in '}]':
+            for mid in ('', '"a": 1', '1, 2', 'zq9 not json', '"k": [1, 2', '"a": {"b": []}'):
+                for pad in ('', ' ', '\n'):
+                    out.append(pad + op + mid + cl + pad)
+    out += ['<html><body>x</body></html>', ' <html><p>late', 'x' * 200 + '<html>', '<HTML><BODY>caps</BODY></HTML>', '<!doctype html><html><p>d</p></html>',
+            '{"a": 1} trailing', 'leading {"a": 1}', '[1, 2],', '{', ']', '{]', '[}', '""', 'null', '{"a": 1}{"b": 2}', '[1, 2]\n[3]']
+    cases = []
+    for t in out:
+        for accept in (None, 'text/html', 'application/json'):
+            cases.append([['str', t], 'basic', None, accept, None])
+    return cases
+
+
 def app_and_cell():
     if not _APP:
         from clastic import Application
@@ -703,6 +721,13 @@ def run_shard(spec, ctx):
                         shared_history(case, ctx)
                     except Exception as e:
                         ctx.classify_exc(e, case, 'shared')
+    if ctx.shard == 2:
+        for case in text_catalogue():
+            ctx.case(case)
+            try:
+                body(case, ctx)
+            except Exception as e:
+                ctx.classify_exc(e, case, 'case')
     if ctx.shard == 1:
         try:
             equal_values_history(ctx)
